@@ -463,3 +463,85 @@ Proof.
     destruct (p2f (GImage n n OC) (V1 y)) as [[l | r c l]|]; try reflexivity. cbn [obind img_op].
     destruct ((r =? n) && (c =? n))%nat; [|reflexivity]. rewrite conv2_edge3_sym. reflexivity.
 Qed.
+
+(* ---------- a one-pixel PSF under replicate padding ---------- *)
+Lemma conv2_edge1_sym nr nc (P X : list (list Qc)) : conv2 BEdge 1 nr nc P X = conv2 BSymmetric 1 nr nc P X.
+Proof.
+  unfold conv2. apply conv2_terms_edge_sym. apply Forall_forall. intros [c d] Hin. apply in_combine_r in Hin. cbn [snd].
+  vm_compute in Hin. unfold small2.
+  repeat (destruct Hin as [<- | Hin]; [cbn [fst snd]; lia|]). destruct Hin.
+Qed.
+
+(* a one-pixel PSF (a scaling) under replicate padding *)
+Theorem deconv2_edge1_adjoint n (P : list (list Qc)) :
+  wf_mat 1 P -> length P = 1%nat ->
+  forall x y, length x = (n * n)%nat -> length y = (n * n)%nat ->
+  exists fx ay, forward (deconv2_model BEdge 1 n P) (V1 x) = Some (V1 fx) /\
+                adjoint (deconv2_model BEdge 1 n P) (V1 y) = Some (V1 ay) /\
+                length fx = (n * n)%nat /\ length ay = (n * n)%nat /\ qdot fx y = qdot x ay.
+Proof.
+  intros WP LP x y Hx Hy.
+  assert (Hud : rev P = P).
+  { destruct P as [|r [|r' P]]; try discriminate. reflexivity. }
+  assert (Hlr : map (@rev Qc) P = P).
+  { destruct P as [|r [|r' P]]; try discriminate. pose proof (Forall_inv WP) as Hr.
+    destruct r as [|a [|b r]]; try discriminate. reflexivity. }
+  destruct (deconv2_sym_adjoint 0 n P WP LP Hud Hlr x y Hx Hy) as (fx & ay & E1 & E2 & L1 & L2 & E).
+  exists fx, ay. split; [|split; [|repeat split; assumption]].
+  - rewrite <- E1. unfold forward, apply_func. cbn [deconv2_model lm_fwd lm_D lm_R].
+    destruct (p2f (GImage n n OC) (V1 x)) as [[l | r c l]|]; try reflexivity. cbn [obind img_op].
+    destruct ((r =? n) && (c =? n))%nat; [|reflexivity]. rewrite conv2_edge1_sym. reflexivity.
+  - rewrite <- E2. unfold adjoint, apply_func. cbn [deconv2_model lm_adj lm_D lm_R].
+    destruct (p2f (GImage n n OC) (V1 y)) as [[l | r c l]|]; try reflexivity. cbn [obind img_op].
+    destruct ((r =? n) && (c =? n))%nat; [|reflexivity]. rewrite conv2_edge1_sym. reflexivity.
+Qed.
+
+(* ---------- 1-d: scipy.ndimage 'reflect' (half-sample symmetric) with a symmetric PSF of odd length ---------- *)
+Lemma two_nonzero : (1 + 1 : Qc) <> 0.
+Proof. apply qc_neq_of_eqb. vm_compute. reflexivity. Qed.
+
+Lemma cancel2 (a b : Qc) : a + a = b + b -> a = b.
+Proof.
+  intros H. assert (E : (a - b) * (1 + 1) = 0).
+  { replace ((a - b) * (1 + 1)) with ((a + a) - (b + b)) by ring. rewrite H. ring. }
+  apply Qcmult_integral in E as [E | E]; [|exfalso; exact (two_nonzero E)].
+  replace a with ((a - b) + b) by ring. rewrite E. ring.
+Qed.
+
+Theorem conv1_sym_selfadjoint h (P x y : list Qc) :
+  length P = (2 * h + 1)%nat -> rev P = P -> length x = length y ->
+  qdot (conv1 BSymmetric P x) y = qdot x (conv1 BSymmetric P y).
+Proof.
+  intros LP HP HL. unfold conv1. rewrite LP, conv1_dot_l, conv1_dot_r.
+  set (w := combine P (offsets (2 * h + 1))).
+  set (s := fun d => qdot (shift 0 BSymmetric d x) y). set (t := fun d => qdot x (shift 0 BSymmetric d y)).
+  assert (Iopp : forall F : Z -> Qc, wsum F w = wsum (fun d => F (- d)%Z) w).
+  { intros F. unfold w. rewrite <- HP at 1. apply wsum_flip; [rewrite offsets_length; exact LP | apply offsets_rev_odd]. }
+  apply cancel2.
+  transitivity (wsum (fun d => s d + s (- d)%Z) w); [rewrite wsum_plus, <- (Iopp s); reflexivity|].
+  transitivity (wsum (fun d => t d + t (- d)%Z) w); [|rewrite wsum_plus, <- (Iopp t); reflexivity].
+  apply wsum_ext. intros [c d] _. cbn [snd]. unfold s, t.
+  exact (sym_shift_pair 0 Qcmult x y d HL).
+Qed.
+
+(* Deconvolution1D(BC='reflect') with a symmetric PSF of odd length (all shipped 1-d PSFs of odd size): the model matrix is
+   symmetric -- forward and adjoint are the same map *)
+Theorem deconv1_reflect_symmetric h (P : list Qc) n y : length P = (2 * h + 1)%nat -> rev P = P -> length y = n ->
+  adjoint (mat_model n (deconv1_matrix false BSymmetric P n) (GId n) (GId n)) (V1 y) =
+  forward (mat_model n (deconv1_matrix false BSymmetric P n) (GId n) (GId n)) (V1 y).
+Proof.
+  intros LP HP Hy.
+  unfold adjoint, forward, apply_func. cbn [mat_model lm_adj lm_fwd lm_D lm_R p2f f2p obind mat_adj mat_fwd]. do 2 f_equal.
+  destruct (deconv1_rows_shape BSymmetric P n) as [W L].
+  assert (WA : wf_mat n (deconv1_matrix false BSymmetric P n)).
+  { unfold deconv1_matrix, deconv1_cols. pose proof (tr_rows n (deconv1_rows BSymmetric P n)) as HR. rewrite L in HR. exact HR. }
+  assert (LA : length (deconv1_matrix false BSymmetric P n) = n).
+  { unfold deconv1_matrix, deconv1_cols. apply tr_length. exact W. }
+  apply (dot_ext n).
+  - apply qmattvec_length. exact WA.
+  - rewrite qmatvec_length. exact LA.
+  - intros x Hx. rewrite <- (qc_adjoint n _ x y WA Hx).
+    change (deconv1_matrix false BSymmetric P n) with (deconv1_cols BSymmetric P n).
+    rewrite (deconv1_cols_operator BSymmetric P n x Hx), (deconv1_cols_operator BSymmetric P n y Hy).
+    apply (conv1_sym_selfadjoint h P x y LP HP). congruence.
+Qed.
